@@ -314,6 +314,13 @@ def c03(tier):
     quick = tier == "quick"
     cases = grams.curated("lang")
     cases += grams.random_grammars(seed() + 3, 60 if quick else 600, prefix="rnd3", sugar=0.45)
+    # the same grammars with one Go result type for every rule: neighbouring stack entries then have identical
+    # types, so a wrong Peek index or a lenient cast cannot hide behind a failed type assertion
+    uni = []
+    for c in cases:
+        u = json.loads(json.dumps(c)); u["uniform"] = True; u["id"] = c["id"] + "~u"
+        uni.append(u)
+    cases += uni if not quick else uni[:len(grams.curated("lang")) + 20]
     for c in cases:
         c["bounds"] = False
     X = explore(rep, sc, cases, lambda c: ["c03"], 400 if quick else 3000, 400 if quick else 3000,
